@@ -223,10 +223,11 @@ func faultFlag(r *model.Rand, b *Base) string {
 	}
 	switch f.name {
 	case "--track":
-		// 3..69999 tracks x events is legitimate heavy work; values in between
-		// 70000 and 2e9 are kept out (see DESIGN 3.3, budget)
-		if v == "99999999999999999999" && r.Chance(1, 2) {
-			v = "2000000000"
+		// values the header, the writer and the reader treat differently;
+		// counts between 65536 and 2e9 are kept out (refused anyway), and the
+		// legitimate but heavy 32767/65535 (N^2 ticks) stay rare
+		if r.Chance(1, 2) {
+			v = model.Pick(r, []string{"0", "-1", "2", "3", "255", "256", "1000", "32768", "40000", "65536", "70000", "2000000000", "32767", "65535"})
 		}
 	case "-d":
 		if len(v) > 4 && v[0] >= '1' && v[0] <= '9' {
